@@ -17,6 +17,7 @@ A case is a dict:
 """
 import itertools
 import math
+import sys
 from fractions import Fraction as F
 
 from . import common as C
@@ -35,16 +36,40 @@ ANCHORS = [("shangrla/raire/raire.py", ["compute_raire_assertions"]),
 CONTEST = "c1"
 
 
+class untraced:
+    """Harness-only code (generators, Fraction arithmetic, brute-force oracles) runs with the thorough tier's line
+    tracer switched off; the tracer is only meant to see the anchored implementation functions."""
+
+    def __enter__(self):
+        self.old = sys.gettrace()
+        if self.old is not None:
+            sys.settrace(None)
+        return self
+
+    def __exit__(self, *exc):
+        if self.old is not None:
+            sys.settrace(self.old)
+        return False
+
+
+def corr(*a, **k):
+    """C.run_corr without the line tracer (it only writes literals and runs coqc)."""
+    with untraced():
+        return C.run_corr(*a, **k)
+
+
 # ---------------------------------------------------------------- exact difficulty functions (same formulas, Fractions)
 def cp_frac(w, l, other, total):
-    amargin = 2 * ((F(w) + F(1, 2) * other) / total) - 1
-    return 1 / amargin
+    with untraced():
+        amargin = 2 * ((F(w) + F(1, 2) * other) / total) - 1
+        return 1 / amargin
 
 
 def bp_frac(w, l, other, total):
-    p = F(w + l, total)
-    q = F(w - l, w + l)
-    return 1 / (p * (q * q))
+    with untraced():
+        p = F(w + l, total)
+        q = F(w - l, w + l)
+        return 1 / (p * (q * q))
 
 
 # ---------------------------------------------------------------- independent IRV semantics (for generators and oracles)
